@@ -17,6 +17,12 @@ mod physical_keyboard_layouts { include!(concat!(env!("VERIF_REPO_SRC"), "/physi
 mod fancy_layout_interpreting { include!(concat!(env!("VERIF_REPO_SRC"), "/fancy_layout_interpreting.rs")); }
 mod layout_parsing_formatting { include!(concat!(env!("VERIF_REPO_SRC"), "/layout_parsing_formatting.rs")); }
 
+mod struct_ser { include!(concat!(env!("VERIF_REPO_SRC"), "/struct_ser.rs")); }
+mod dev_input_rw {
+  include!(concat!(env!("VERIF_REPO_SRC"), "/dev_input_rw.rs"));
+  include!("c18_probe.rs");
+}
+
 mod key_transforms {
   include!(concat!(env!("VERIF_REPO_SRC"), "/key_transforms.rs"));
   include!("mapper_oracles.rs");
@@ -36,6 +42,10 @@ fn main() {
     "explore" => {
       let prop = &args[2]; let secs: f64 = args[3].parse().unwrap(); let seed: u64 = args[4].parse().unwrap();
       std::process::exit(key_transforms::explore(prop, secs, seed));
+    },
+    "c18" => {
+      let seed: u64 = args[2].parse().unwrap(); let budget: u64 = args[3].parse().unwrap();
+      std::process::exit(dev_input_rw::c18(seed, budget));
     },
     "replay" => {
       let prop = &args[2];
